@@ -13,7 +13,7 @@
    Process(ppid) / before parent.create_time()); goneb = ancestors vanishing after parents()
    appended them; o = the caller object;
    fuel = number of loop iterations allowed (None = exhausted = no termination). *)
-From PV Require Import C05.Spec C05.Lib C05.Proofs C05.ProofsSpec C05.ProofsParent C05.ProofsVanish C05.ProofsClock C05.ProofsBig C05.ProofsSource Gen.C05_Tables.
+From PV Require Import C05.Spec C05.Lib C05.Proofs C05.ProofsSpec C05.ProofsParent C05.ProofsVanish C05.ProofsClock C05.ProofsBig C05.ProofsSource C05.PyGen C05.ProofsGen Gen.C05_Tables.
 
 (* children(): exactly the listed processes naming the caller as parent, never the
    caller itself, still there and not started before it, in listing order *)
@@ -348,3 +348,23 @@ Theorem C05_no_deep_copy : forall o,
   copy_result ShallowCopy o = Val o.
 Proof. exact no_deep_copy. Qed.
 Print Assumptions C05_no_deep_copy.
+
+(* ---------------------------------------------------------------- Round 2: the source, translated
+   c05_children (coq/Gen/C05_Tables.v) is generated on every run from the ast of Process.children() of the tree
+   under check (props/_c05_gen.py); run_children (coq/C05/PyGen.v) interprets it over the model's primitives
+   (prims_of: self.pid, _raise_if_pid_reused, _ppid_map, Process(pid), the caller's side of _start_times). *)
+Theorem C05_gen_children_direct : forall t gone o, pids_nonneg t = true -> forall fuel,
+  run_children (prims_of t gone o) c05_children false fuel =
+  (do l <- children_direct as_is t gone o; Val (Some l)).
+Proof. exact gen_children_direct. Qed.
+Print Assumptions C05_gen_children_direct.
+
+Theorem C05_gen_children_rec : forall t gone o, pids_nonneg t = true -> forall fuel,
+  run_children (prims_of t gone o) c05_children true fuel = children_rec as_is fuel t gone o.
+Proof. exact gen_children_rec. Qed.
+Print Assumptions C05_gen_children_rec.
+
+(* the hypothesis is satisfiable by a non-trivial table (and follows from wf_table) *)
+Theorem C05_gen_nonneg_of_wf : forall t, wf_table t = true -> pids_nonneg t = true.
+Proof. exact nonneg_of_wf. Qed.
+Print Assumptions C05_gen_nonneg_of_wf.
